@@ -1,7 +1,8 @@
 /-
 Model of GCPMultiEndpoint (gcp_multiendpoint.go, after fixes F15 / F16).  Serves C15, C16.
-Reuses the MultiEndpoint model (every MultiEndpoint here has no recovery timeout and no switching
-delay: the harness cannot virtualise the clock of another package; C13/C14 cover timers).
+Reuses the MultiEndpoint model (every MultiEndpoint here has no recovery timeout; a switching delay,
+if any, is one that does not run out during a test: the harness cannot virtualise the clock of another
+package; C13/C14 cover timers).
 -/
 import GcpVerif.Model.ME
 namespace GcpVerif.GME
@@ -36,11 +37,25 @@ def bumpDial (d : List (String × Nat)) (e : String) : List (String × Nat) :=
 def notifyAll (s : St) (e : String) (avail : Bool) : St :=
   { s with mes := s.mes.map fun p => (p.1, ME.opSetAvail p.2 e avail) }
 
+/-- a MultiEndpoint is told about its own endpoints, in the order of its list (F34: with a switching
+    delay the first available endpoint it hears of becomes current at once, a better one only later) -/
+def tellOwn (r : String → Bool) (l : List String) (me : ME.St) : ME.St :=
+  l.foldl (fun m e => ME.opSetAvail m e (r e)) me
+
+/-- one entry of the options: the MultiEndpoint of that name re-configured, or a new one (with the
+    switching delay `delay`; the harness runs every MultiEndpoint without recovery timeout) -/
+def configure (s : St) (delay : Int) (p : String × Option (List String)) : Option (String × ME.St) :=
+  match p.2 with
+  | none => none
+  | some l =>
+    match findME s p.1 with
+    | some me => some (p.1, (ME.step me (.setEndpoints l)).1)
+    | none => (ME.init 0 delay l).map fun me => (p.1, me)
+
 /-- UpdateMultiEndpoints; `connReady e` is what `conn.GetState() == Ready` gives for a pool at the
-    end of the call; `syncOrder` resolves the map iteration order of the final status update.
-    `false` in the Bool result = an error was returned. -/
+    end of the call. `false` in the Bool result = an error was returned. -/
 def update (s : St) (default : String) (opts : Opts) (dialFail : List String) (connReady : String → Bool)
-    (syncOrder : List String := []) : St × Bool :=
+    (delay : Int := 0) : St × Bool :=
   if !optsValid default opts then (s, false)
   else
     let valid := validEndpoints opts
@@ -49,21 +64,14 @@ def update (s : St) (default : String) (opts : Opts) (dialFail : List String) (c
     else
       let pools := s.pools ++ missing
       let dials := missing.foldl bumpDial s.dials
-      -- update existing MultiEndpoints, create new ones (in the order of the options)
+      -- update existing MultiEndpoints, create new ones (in the order of the options); "Trigger status
+      -- update": every MultiEndpoint is told the state of the pools of its own endpoints, in list order
       let mes : List (String × ME.St) := opts.filterMap fun p =>
-        match p.2 with
-        | none => none
-        | some l =>
-          match findME s p.1 with
-          | some me => some (p.1, (ME.step me (.setEndpoints l)).1)
-          | none => (ME.init 0 0 l).map fun me => (p.1, me)
+        (configure s delay p).map fun q => (q.1, tellOwn connReady (p.2.getD []) q.2)
       let obsolete := pools.filter fun e => !valid.contains e
       let pools := pools.filter fun e => valid.contains e
-      let s : St := { s with mes := mes, pools := pools, dials := dials, closed := s.closed ++ obsolete,
-                             defaultName := default, alive := true }
-      -- "Trigger status update": `for e, mc := range gme.pools` — Go map order, an input of the model
-      let order := if syncOrder.mergeSort (· ≤ ·) == pools.mergeSort (· ≤ ·) then syncOrder else pools
-      (order.foldl (fun s e => notifyAll s e (connReady e)) s, true)
+      ({ s with mes := mes, pools := pools, dials := dials, closed := s.closed ++ obsolete,
+                defaultName := default, alive := true }, true)
 
 /-- the MultiEndpoint named in the call's context, or the default one for no / an unknown name -/
 def pickME (s : St) (name : Option String) : Option ME.St :=
